@@ -49,9 +49,9 @@ PARTIAL = [
     "state runH reaches from the empty heap is well-formed and represents the state runP reaches: every occupied slot an object "
     "representing the pure value, footprints of different slots disjoint, every live block in exactly one footprint), "
     "C19_history_release (releasing all slots then frees every block, each once), C19_list_history, C19_nested_update_exact "
-    "(pure level). What the history theorems do NOT say: (i) fuel — the pointer-following heap functions take fuel, the theorems "
-    "hold for every fuel >= Hist.bound ops (a number computed from the pure run: the largest `need` of a value in any state of "
-    "the history); the driver runs with fuel 10^6; (ii) the pointer test `src == dst` of cif_value_clone is modelled as equality "
+    "(pure level). The history theorems carry no fuel hypothesis: the interpreter computes the fuel of the pointer-following heap "
+    "functions from the heap (fuelOf h = 3*h.next + 9), which is proved sufficient (Rep_nodup, Rep_need, RepS.fitsAt: a footprint lists "
+    "each block once below the bump pointer). What the history theorems do NOT say: (ii) the pointer test `src == dst` of cif_value_clone is modelled as equality "
     "of the two REFERENCES (two references designate the same object exactly when they are equal, because the blocks of "
     "different members are disjoint — that equivalence itself is not stated as a theorem); (iii) cif_packet_create with two "
     "names for one item leaves the model state as it was (the blocks it allocated and released again are not recorded; "
